@@ -25,6 +25,8 @@ claimed = {
          "bounds in evidence (formulas of 2..3/4 operands, texts <=4/5 bytes); float values of the operators not claimed"),
  "C07": ("Real MatchCounter, SubKeyCounter, TableAggregator (Sample/SampleValue/SampleItem, Items, SubKeys, totals, ComputeMinMax, Trim) and MatchNumerical/StatisticalAnalysis executed on symbolic sample histories and compared, after every prefix, with a straightforward fold written in the harness; increments range over all of int64 with wrap-around; Trim under every forked map iteration order; adjacent samples commute.",
          "bounds in evidence (histories of 1..3/4 samples over a 3-key alphabet); mean/standard deviation (float accumulation) and the accumulating group outside"),
+ "C13": ("Real helpers.BuildSorter/parseSort/lookupSorter and the comparators they compose (ByName, ByNameSmart, ByContextualEx, ByDate, ValueSorterEx, ValueNilSorter, Reverse) executed on triples of pairwise distinct symbolic keys: the strict-total-order laws (asymmetric, total, transitive in every arrangement, same answer when asked again / after other pairs were compared) that make sort.Sort's result a function of the key set, plus the documented meaning of each mode and modifier; numeric keys go through the real strconv.ParseFloat executed symbolically and, separately, through ParseFloat abstracted to an arbitrary function; date keys through the real dateparse/time code executed by the engine; sorted item/row/column lists under every forked map iteration order.",
+         "bounds in evidence (keys <=2/3 bytes, pools of calendar names and dates); sort.Sort trusted; one known finding (date sort with mixed layouts, see known_findings.json)"),
 }
 man = {
  "version": 1,
